@@ -57,6 +57,31 @@ Fixpoint enc_seq (c : cfg) (ms : list rmodel) (l : list (Z * Z)) (a : ans) : ans
       end
   end.
 
+(* op 17: exhaustive single-step sweep folded into a checksum (see fam_ans.rs) *)
+Definition mixN (acc x : N) : N := N.land (N.lxor (acc * 1000003) x) 0x1FFFFFFFFFFFFFFF%N.
+
+Definition sweep_entry (c : cfg) (m : emodel) (s : N) (acc : N) (e : Z * N * N) : N :=
+  let bulk0 := if N.leb (thr c) s then [0xA5%N] else [] in
+  let a0 := {| bulk := bulk0; st := s |} in
+  match ans_encode_sym c m (fst (fst e)) a0 with
+  | None => acc
+  | Some a1 =>
+      let acc := mixN acc 1%N in
+      let acc := mixN acc (N.of_nat (length (bulk a1))) in
+      let acc := fold_left mixN (rev (bulk a1)) acc in
+      let acc := mixN acc (st a1) in
+      let '(d, a2) := ans_decode_sym c m a1 in
+      let acc := mixN acc (Z.to_N d) in
+      let acc := mixN acc (N.of_nat (length (bulk a2))) in
+      mixN acc (st a2)
+  end.
+
+Fixpoint sweep_states (c : cfg) (m : emodel) (t : table) (n : nat) (s : N) (acc : N) : N :=
+  match n with
+  | O => acc
+  | S n' => sweep_states c m t n' (N.succ s) (fold_left (sweep_entry c m s) t acc)
+  end.
+
 (* [tw] : the twin forked by op 16 (receives encodes/decodes, no inspections) *)
 Fixpoint ans_loop (fuel : nat) (c : cfg) (ms : list rmodel) (l : list Z) (a : ans) (tw : option ans)
   : list Z :=
@@ -124,6 +149,9 @@ Fixpoint ans_loop (fuel : nat) (c : cfg) (ms : list rmodel) (l : list Z) (a : an
         let '(a', ss) := dec_iid c (get_model ms m) (Z.to_nat k) a in
         ss ++ ans_loop fuel' c ms r a' tw
     | 14 :: r => 0 :: ans_loop fuel' c ms r a tw
+    | 17 :: m :: lo :: hi :: r =>
+        let '(P, t) := nth (Z.to_nat m) ms (1%N, []) in
+        nZ (sweep_states c (table_model P t) t (Z.to_nat (hi - lo)) (zN lo) 0%N) :: ans_loop fuel' c ms r a tw
     | 15 :: r =>
         let '(seq, r') := read_list r in
         let '(a1, ss) := dec_seq c ms seq a in
